@@ -15,7 +15,7 @@ pub fn info() -> PropInfo {
     PropInfo {
         id: "C08",
         level: "exploration",
-        rule: "proptest: the harness is the issuer. A generated (claims, strategy) tree is packed by the harness's own encoder into payload + disclosures, with 0-3 deviations drawn from: member/element disclosures of arity 0..5 or not arrays, non-string / reserved (_sd, ...) / colliding / _sd_alg names, 2-element referenced from _sd, 3-element referenced from ..., unparseable referenced strings, digest repeated within one _sd / across levels / as placeholder, twin decoys, non-string _sd entries, non-array _sd, placeholders with extra members / non-string digests / as member values, _sd_alg absent / sha-256 / other strings, plus unreferenced, repeated, removed and shuffled disclosures, a nested object carrying its own _sd_alg member ahead of the top-level one, and hand-made self-similar chains (every level references the next digest twice, depth 8..33); signed with the test key. Oracle = from-scratch implementation of draft-07 8.1 steps 3-4: MustReject => Err; Claims(v) => Err or exactly v; ambiguous spots not asserted. Non-trivial: MustReject case, or an Ok whose claims were compared. Distinct: hash of the case JSON.",
+        rule: "proptest: the harness is the issuer. A generated (claims, strategy) tree is packed by the harness's own encoder into payload + disclosures, with 0-3 deviations drawn from: member/element disclosures of arity 0..5 or not arrays, non-string / reserved (_sd, ...) / colliding / _sd_alg names, 2-element referenced from _sd, 3-element referenced from ..., unparseable referenced strings, digest repeated within one _sd / across levels / as placeholder, twin decoys, non-string _sd entries, non-array _sd, placeholders with extra members / non-string digests / as member values, _sd_alg absent / sha-256 / other strings, plus unreferenced, repeated, removed (one, half, all) and shuffled disclosures, `_sd` placed first / between / after the other members, a nested object carrying its own _sd_alg member ahead of the top-level one, and hand-made self-similar chains (every level references the next digest twice, depth 8..33); signed with the test key. Oracle = from-scratch implementation of draft-07 8.1 steps 3-4: MustReject => Err; Claims(v) => Err or exactly v; ambiguous spots not asserted. Non-trivial: MustReject case, or an Ok whose claims were compared. Distinct: hash of the case JSON.",
         assumptions: &[
             "literal reading of the draft where it is silent (an _sd that is not an array of strings, or a '...' object with other members, carries no embedded digest); Err is always accepted there",
             "what becomes of a member named _sd_alg below the top level, and a non-string _sd_alg, are not asserted (a top-level unsupported _sd_alg must be refused whatever sits below)",
@@ -134,6 +134,13 @@ fn packed_strategy() -> BoxedStrategy<Case> {
                 5 => {
                     deviations.push("list:reversed".into());
                     disclosures.reverse();
+                }
+                7 => {
+                    // nothing presented at all: the payload alone must still be well-formed
+                    if !disclosures.is_empty() {
+                        deviations.push("list:all_removed".into());
+                        disclosures.clear();
+                    }
                 }
                 6 => {
                     if disclosures.len() > 2 {
